@@ -122,18 +122,13 @@ Theorem c11_one_source_exact : forall u amt, wfq u ->
 Proof. exact @dist_spec. Qed.
 Print Assumptions c11_one_source_exact.
 
-(* non-vacuity: two v1 contracts and one v2 contract fund account 0; a v1 debit with registry
-   categories spans both v1 contracts and exhausts the first exactly *)
-Definition z : cusage := {| cRpc := 0; cStorage := 0; cIngress := 0; cEgress := 0; cRegR := 0; cRegW := 0; cFunding := 0; cRisked := 0 |}.
-Definition c11_demo : list op :=
-  [AddC1 1 z; AddC1 2 z; AddC2 1 z; Fund1 1 0 1 5; Fund1 2 0 1 5;
-   Fund2 1 [(1, 4)]%N {| rRpc := 0; rStorage := 0; rEgress := 0; rIngress := 0; rFunding := 4; rRisked := 0 |};
-   Debit1 0 {| qStorage := 2; qIngress := 0; qEgress := 0; qRegR := 3; qRegW := 2; qRpc := 0 |}].
+(* non-vacuity (c11_demo in Proofs3.v): two v1 contracts and one v2 contract fund accounts; a v1
+   debit with registry categories spans both v1 contracts and exhausts the first exactly *)
 Example c11_nonvacuous :
-  Forall wf_op c11_demo /\ (atts c11_demo <? two128)%N = true /\ Forall (no_v2_deposit 0) c11_demo /\
+  Forall wf_op c11_demo /\ (atts c11_demo < two128)%N /\ Forall (no_v2_deposit 0) c11_demo /\
   crev (con1 (runs init c11_demo)) = 9%N /\
   option_map cFunding (alookup 1%N (con1 (runs init c11_demo))) = Some 0%N /\
   option_map cFunding (alookup 2%N (con1 (runs init c11_demo))) = Some 3%N /\
   option_map cRegW (alookup 2%N (con1 (runs init c11_demo))) = Some 2%N /\
   inner 0 (fund1 (runs init c11_demo)) = [(2, 3)]%N /\ getv 0 (accts (runs init c11_demo)) = 3%N.
-Proof. vm_compute. repeat split; repeat constructor; lia. Qed.
+Proof. exact c11_demo_ok. Qed.
